@@ -3,7 +3,7 @@ from __future__ import annotations
 
 import numpy as np
 
-from vf import envs, episodes, hyp
+from vf import bulk, envs, episodes, hyp
 from vf.hyp import st
 from vf.models.base import get_model, supports
 from vf.runner import Ctx
@@ -46,6 +46,16 @@ BASE = {
 MID_T = {"RobotWarehouse": 30, "Snake": 25, "Tetris": 25, "LevelBasedForaging": 25, "Connector": 15, "PacMan": 30,
          "Cleaner": 20, "Maze": 20, "Sokoban": 25, "SlidingTilePuzzle": 20, "MMST": 15, "RubiksCube": 9}
 EXTRA_TIME = {"MMST": [(7, {"max_step": 4}), (3, {"max_step": 30})]}
+
+
+# bulk sweeps (vf/bulk.py): episodes per batch of the twin sweep (time-limited envs, T = MID_T and 7) and of the
+# horizon sweep (envs whose structural bound is a constant of the configuration)
+TWIN_SWEEP = {"RubiksCube": 512, "SlidingTilePuzzle": 1024, "Tetris": 512, "Cleaner": 1024, "Connector": 512,
+              "LevelBasedForaging": 512, "Maze": 1024, "MMST": 256, "PacMan": 48, "RobotWarehouse": 256, "Snake": 1024,
+              "Sokoban": 256}
+TWIN_SWEEP_QUICK = ("SlidingTilePuzzle", "Tetris", "Cleaner", "Maze", "Snake", "Connector", "LevelBasedForaging", "RubiksCube")
+HORIZON_SWEEP = {"TSP": ("n5d", 4096), "CVRP": ("n5s", 4096), "MultiCVRP": ("c6v2d", 1024), "Knapsack": ("n10s", 4096),
+                 "GraphColoring": ("n6p8", 4096), "Minesweeper": ("r3c5m3", 4096)}
 
 
 def horizon_bound(b, st_):
@@ -215,7 +225,90 @@ def work_items(tier, flt):
         for entry in envs.tier_entries(env, tier, flt):
             items.append({"kind": "horizon", "env": env, "entry": entry,
                           "n": max(2, int((25 if tier == "quick" else 200) * scale)), "cost": 1})
+    nb = 1 if tier == "quick" else 3
+    for env in envs.select_envs([e for e in TWIN_SWEEP if tier == "thorough" or e in TWIN_SWEEP_QUICK], flt):
+        entry = BASE[env][0]
+        if flt and flt.get("entry") and entry not in flt["entry"]:
+            continue
+        mid = 12 if env == "Tetris" else MID_T[env]   # random placements top out a 10x10 Tetris board before step 25
+        for T in ([mid] if tier == "quick" else [mid, 7]):
+            items.append({"kind": "tsweep", "env": env, "entry": entry, "T": T, "episodes": TWIN_SWEEP[env],
+                          "batches": nb, "cost": 4})
+    for env in envs.select_envs(list(HORIZON_SWEEP), flt):
+        entry, n = HORIZON_SWEEP[env]
+        if flt and flt.get("entry") and entry not in flt["entry"]:
+            continue
+        items.append({"kind": "hsweep", "env": env, "entry": entry, "episodes": n, "batches": nb, "cost": 2})
     return items
+
+
+def run_sweep(item, seed):
+    """Bulk sweeps: candidates are found on the device, every flagged episode is replayed on the host through the
+    ordinary twin / horizon code and judged there."""
+    ctx = Ctx(PROPERTY, item)
+    env, entry = item["env"], item["entry"]
+    with ctx.guard(env, {"env": env, "entry": entry, "stage": "construct", "item": item}):
+        if item["kind"] == "tsweep":
+            T = int(item["T"])
+            long_b, short_b = envs.bundle(env, entry, time_limit=T + 5), envs.bundle(env, entry, time_limit=T)
+
+            def one(key, salt):
+                with ctx.guard(env, {"kind": "time", "env": env, "entry": entry, "T": T, "T_arg": T, "key": list(key),
+                                     "actions": [], "stage": "sweep"}):
+                    first, reached, kws, acts = bulk.twin_sweep(long_b, short_b, T, key, salt, item["episodes"])
+                ctx.evals(len(first))
+                ctx.count("sweep_twin_episodes", len(first))
+                ctx.count(f"sweep_survived_to_T_{env}", int(reached.sum()))
+                ctx.nontrivial(env, entry, "tsweep", T, int(reached.sum()))
+                for e in np.flatnonzero(first >= 0)[:3]:
+                    kw = [int(kws[e][0]), int(kws[e][1])]
+                    case = {"kind": "time", "env": env, "entry": entry, "T": T, "T_arg": T, "key": kw,
+                            "actions": [np.asarray(a).tolist() for a in acts[e]], "extra": None}
+                    before = len(ctx.failures)
+                    with ctx.guard(env, case, size=10**6):
+                        tl, ts_, _, expl = twin(ctx, env, entry, T, T, kw, actions=case["actions"])
+                        for o, s, m in judge(env, T, tl, ts_, expl)[0]:
+                            ctx.fail(o, env, s, m + f" [entry={entry} key={kw}]", case, size=len(case["actions"]))
+                    ctx.count("sweep_flagged")
+                    if len(ctx.failures) == before:
+                        ctx.count("sweep_unconfirmed")
+                if len(ctx.samples) < 2:
+                    ctx.sample({"env": env, "entry": entry, "T": T, "sweep_base_key": list(key), "salt": salt,
+                                "episodes": int(len(first)), "both_twins_running_on_step_T": int(reached.sum())})
+        else:
+            b = envs.bundle(env, entry)
+            bound = int(horizon_bound(b, None))
+            if not hasattr(b, "_c11_flag"):
+                b._c11_flag = lambda s, ts, is_reset, step: ((step == bound) & ~ts.last(), ts.last())
+
+            def one(key, salt):
+                with ctx.guard(env, {"kind": "horizon", "env": env, "entry": entry, "key": list(key), "actions": [],
+                                     "stage": "sweep"}):
+                    first, n, aux, kws, acts = bulk.sweep(b, key, salt, item["episodes"], bound + 1, b._c11_flag)
+                ctx.evals(len(first))
+                ctx.count("sweep_horizon_episodes", len(first))
+                ctx.count(f"sweep_reached_bound_{env}", int((n - 1 >= bound).sum()))
+                ctx.nontrivial(env, entry, "hsweep", int(n.max()))
+                for e in np.flatnonzero(first >= 0)[:3]:
+                    kw = [int(kws[e][0]), int(kws[e][1])]
+                    case = {"kind": "horizon", "env": env, "entry": entry, "key": kw,
+                            "actions": [np.asarray(a).tolist() for a in acts[e]]}
+                    before = len(ctx.failures)
+                    with ctx.guard(env, case, size=10**6):
+                        res = horizon_episode(b, kw, actions=case["actions"])
+                        if not res["ended"] and res["steps"] > res["bound"]:
+                            ctx.fail("horizon.exceeded", env, "no LAST within the structural bound",
+                                     f"bound={res['bound']} steps played={res['steps']} [entry={entry} key={kw}]", case,
+                                     size=len(case["actions"]))
+                    ctx.count("sweep_flagged")
+                    if len(ctx.failures) == before:
+                        ctx.count("sweep_unconfirmed")
+                if len(ctx.samples) < 2:
+                    ctx.sample({"env": env, "entry": entry, "bound": bound, "sweep_base_key": list(key), "salt": salt,
+                                "episodes": int(len(first)), "longest": int(n.max()) - 1})
+
+        hyp.drive({"key": episodes.keys(), "salt": st.integers(0, 2**20)}, one, seed, item["batches"])
+    return ctx.result()
 
 
 def _resolve_T(item):
@@ -285,6 +378,8 @@ def run_coincide(item, seed):
 def run_item(item, seed, tier):
     if item.get("kind") == "coincide":
         return run_coincide(item, seed)
+    if item.get("kind") in ("tsweep", "hsweep"):
+        return run_sweep(item, seed)
     ctx = Ctx(PROPERTY, item)
     env, entry = item["env"], item["entry"]
     with ctx.guard(env, {"env": env, "entry": entry, "stage": "construct", "item": item}):
